@@ -1214,15 +1214,18 @@ fn fuzz_phase<P: Property>(
             }
         }
         // fixed work per job; the wall-clock bound only catches a stuck campaign
-        let budget = Duration::from_secs(900 + runs / 4);
+        let budget = Duration::from_secs(1500 + runs / 4);
         for mut c in children {
             loop {
                 match c.try_wait() {
                     Ok(Some(_)) => break,
                     Ok(None) => {
                         if started.elapsed() > budget {
+                            let pid = c.id();
                             let _ = c.kill();
                             let _ = c.wait();
+                            // the case it was running is not a case it died on
+                            let _ = std::fs::remove_file(dir.join(format!("current-{}.json", pid)));
                             sup.inconclusive.push(format!("fuzz job of {} exceeded its wall-clock bound and was stopped", target));
                             break;
                         }
